@@ -42,7 +42,13 @@ pub enum Op {
     Push { slot: u8, off: u32, len: u32 },
     Extend { slot: u8, parts: Vec<(u32, u16)> },
     FromSlices { parts: Vec<(u32, u16)>, collect: bool },
-    Register { slot: u8, len: u8 },
+    /// register_patch with a pattern of `big` bytes when `big > 0`, of `len % 5` bytes otherwise.
+    Register {
+        slot: u8,
+        len: u8,
+        #[serde(default)]
+        big: u16,
+    },
     Backfill { slot: u8, which: u8 },
     Clear { slot: u8 },
     Take { slot: u8 },
@@ -50,6 +56,10 @@ pub enum Op {
     DropSlot { slot: u8 },
     Flush { slot: u8 },
     Ensure { slot: u8, len: u32 },
+    /// Use up the slot's current arena chunk until `leave` bytes remain: by a push_copy
+    /// into the slot (`via_copy`, so that the last slice ends at the arena's write
+    /// position) or by a dropped read_n allocation.
+    FillChunk { slot: u8, off: u32, leave: u16, via_copy: bool },
     TakeArenaBack { slot: u8 },
     SwapArenas { a: u8, b: u8 },
     NewFromArena { slot: u8 },
@@ -129,6 +139,7 @@ pub struct Stats {
     pub merges: usize,
     pub partial_byte_consumptions: usize,
     pub chunk_creations: usize,
+    pub chunk_fills: usize,
     pub anchored_pushes: usize,
     pub anchored_partially_consumed: bool,
     pub max_pending: usize,
@@ -278,9 +289,9 @@ impl World {
                     self.new_slot(io, m, vec![]);
                 }
             }
-            Op::Register { slot, len } => {
+            Op::Register { slot, len, big } => {
                 let si = self.pick_slot(*slot);
-                let k = (*len as usize) % 5;
+                let k = if *big > 0 { *big as usize } else { (*len as usize) % 5 };
                 let pattern = vec![PLACEHOLDER; k];
                 let s = &mut self.slots[si];
                 let offset = s.m.stream.len();
@@ -402,6 +413,24 @@ impl World {
             Op::Ensure { slot, len } => {
                 let si = self.pick_slot(*slot);
                 self.slots[si].io.arena().ensure_capacity((*len as usize).min(2 << 20));
+            }
+            Op::FillChunk { slot, off, leave, via_copy } => {
+                let si = self.pick_slot(*slot);
+                let leave = *leave as usize;
+                let arena = self.slots[si].io.arena();
+                if arena.remaining() <= leave {
+                    arena.ensure_capacity(leave + 1);
+                }
+                let take = arena.remaining().saturating_sub(leave);
+                if take > 0 && take <= 2 << 20 {
+                    if *via_copy {
+                        let b = pool_slice(*off, take as u32);
+                        self.append(si, b, |io| io.push_copy(b));
+                    } else {
+                        super::codec::leave_remaining(self.slots[si].io.arena(), leave);
+                    }
+                    self.stats.chunk_fills += 1;
+                }
             }
             Op::TakeArenaBack { slot } => {
                 let si = self.pick_slot(*slot);
@@ -986,6 +1015,7 @@ fn op_name(op: &Op) -> &'static str {
         Op::DropSlot { .. } => "drop",
         Op::Flush { .. } => "flush_cache",
         Op::Ensure { .. } => "ensure_capacity",
+        Op::FillChunk { .. } => "fill_chunk",
         Op::TakeArenaBack { .. } => "take_arena",
         Op::SwapArenas { .. } => "swap_arena",
         Op::NewFromArena { .. } => "new_from_arena",
@@ -1113,7 +1143,7 @@ pub fn op(mix: Mix) -> BoxedStrategy<Op> {
         3 => (slot(), any::<u32>(), small_size()).prop_map(|(slot, off, len)| Op::Push { slot, off, len }),
     ];
     let patch = prop_oneof![
-        1 => (slot(), 0u8..5).prop_map(|(slot, len)| Op::Register { slot, len }),
+        1 => (slot(), 0u8..5, prop_oneof![12 => Just(0u16), 2 => 5u16..64, 2 => 64u16..300, 1 => 300u16..4200]).prop_map(|(slot, len, big)| Op::Register { slot, len, big }),
         1 => (slot(), any::<u8>()).prop_map(|(slot, which)| Op::Backfill { slot, which }),
     ];
     let consume = prop_oneof![
@@ -1126,6 +1156,7 @@ pub fn op(mix: Mix) -> BoxedStrategy<Op> {
     let arena = prop_oneof![
         2 => slot().prop_map(|slot| Op::Flush { slot }),
         2 => (slot(), size()).prop_map(|(slot, len)| Op::Ensure { slot, len }),
+        3 => (slot(), any::<u32>(), prop_oneof![0u16..4, 60u16..70, 0u16..300, 0u16..4200], any::<bool>()).prop_map(|(slot, off, leave, via_copy)| Op::FillChunk { slot, off, leave, via_copy }),
         1 => slot().prop_map(|slot| Op::TakeArenaBack { slot }),
         1 => (slot(), slot()).prop_map(|(a, b)| Op::SwapArenas { a, b }),
         1 => slot().prop_map(|slot| Op::NewFromArena { slot }),
